@@ -83,6 +83,9 @@ func ParseReadDiscreteInputsRequestTCP(data []byte) (*ReadDiscreteInputsRequestT
 	if err != nil {
 		return nil, err
 	}
+	if len(data) < 12 {
+		return nil, errTCPRequestTooShort(header, data, FunctionReadDiscreteInputs)
+	}
 	unitID := data[6]
 	if data[7] != FunctionReadDiscreteInputs {
 		tmpErr := NewErrorParseTCP(ErrIllegalFunction, "received function code in packet is not 0x02")
